@@ -493,7 +493,14 @@ mod builtins {
             Some(value) => match value.0 {
                 ValueRepr::Undefined(_) => ValueMap::default(),
                 ValueRepr::Object(obj) if obj.repr() == ObjectRepr::Map => {
-                    obj.try_iter_pairs().into_iter().flatten().collect()
+                    // Insert one by one: collecting into a `BTreeMap` de-duplicates
+                    // adjacent keys with `==`, which is not the `Ord` the map is keyed
+                    // by (it drops one of `true` and `1` and keeps two NaN keys).
+                    let mut rv = ValueMap::default();
+                    for (key, value) in obj.try_iter_pairs().into_iter().flatten() {
+                        rv.insert(key, value);
+                    }
+                    rv
                 }
                 _ => return Err(Error::from(ErrorKind::InvalidOperation)),
             },
